@@ -527,9 +527,10 @@ def rule_r13(ck, prog, rule='C02.R13', providers=('sdk::trace::TracerProvider', 
                          '%s has no user-written destructor: destroying the provider no longer drains and shuts down its processors' % cls.rsplit('::', 1)[-1])
             continue
         f = ds[0]
-        g = Graph(prog, f, inline=None, sync_lambdas=False)
+        # (the destructor may go through the provider's own non-virtual Shutdown(): members of the same class are inlined)
+        g = Graph(prog, f, inline=same_class_inline(prog, rec['qn']), sync_lambdas=False, max_depth=2)
         sh = [p for p in g.points if p.n is not None and p.n['k'] == 'call' and strip_targs(p.n.get('c', '')).rsplit('::', 1)[-1] == 'Shutdown' and
-              p.n.get('obj') is not None and 'context' in path_str(access_path(f, p.n['obj'])).lower()]
+              p.n.get('obj') is not None and 'context' in path_str(access_path(p.f, p.n['obj'], p.ctx)).lower()]
 
         def null_ctx(a, b, lab):
             if not lab or not isinstance(lab[0], int):
